@@ -71,7 +71,10 @@ def acceptance(prog, rep, ver, mod):
         if k.startswith("<" + mod + "::ReceiveChunks as std::iter::Iterator>::next::{closure"):
             lazy = b
     if lazy is None:
-        raise AnchorLost("%s: closure of ReceiveChunks::next not found" % ver)
+        # written as a loop instead of a closure + tail call: the test sits in `next` itself
+        lazy = prog.bodies.get("<" + mod + "::ReceiveChunks as std::iter::Iterator>::next")
+    if lazy is None:
+        raise AnchorLost("%s: ReceiveChunks::next (or its closure) not found" % ver)
     sites = []
     for name, b in (("eager", eager), ("lazy", lazy)):
         ir = IR(b)
@@ -109,8 +112,15 @@ def acceptance(prog, rep, ver, mod):
                 rep.ob(rule, "%s | lazy ack is the pre-loop copy" % ver, ok2 and clone_ok,
                        "ReceiveChunks.ack is online.ack as it was before the eager loop updated it", b.loc())
             else:
-                # lazy: the non-Current edge skips (recurses into next) instead of yielding
-                ok = any((t.get("callee") or "").endswith("ReceiveChunks as std::iter::Iterator>::next") for _, t in b.calls())
+                # lazy: from the non-Current edge no chunk is yielded before the next one is fetched (tail call of next, or
+                # `continue` to the fetch at the loop head)
+                fetch = frozenset(b2 for b2, t in b.calls() if (t.get("callee") or "").endswith("ReceiveChunks as std::iter::Iterator>::next")
+                                  or "ChunksIter" in (t.get("callee") or "") and (t.get("callee") or "").rsplit("::", 1)[-1] in ("next", "next_warn"))
+                yields = [b2 for b2 in sorted(b.live) for st in b.blocks[b2]["st"]
+                          if st["k"] == "assign" and st["r"]["k"] == "agg" and (st["r"].get("adt") or "").endswith("ReceiveChunk") and st["r"].get("variant") == "Connected"]
+                from ..effects import bool_edge
+                tgt = bool_edge(b, bi, bool(is_ne))
+                ok = bool(fetch) and bool(yields) and tgt is not None and not any(y in b.reachable_from(tgt, removed_blocks=fetch) for y in yields)
                 rep.ob(rule, "%s | lazy | non-Current chunk is skipped" % ver, ok, "the lazy replay skips chunks that are not the next in sequence", b.loc())
     # the eager scan visits every chunk of the datagram: its loop is left only through the chunk iterator's None edge
     # (an early `break` would let the lazy replay deliver chunks the bookkeeping never saw)
@@ -183,6 +193,17 @@ def sequence(prog, rep, ver, mod, pmod):
                 truth = ((rel == "==" and v == 1) or (rel == "notin" and 0 in v)) != neg
                 if c[0] == truth and (_is_current_const(prog, c[1], mod) or _is_current_const(prog, c[2], mod)):
                     ok = True
+            elif e2[0] == "discr" and not neg and (ir.type_of(e2[1]) or "").endswith("SequenceOrdering"):
+                # `match result { Current => .., _ => .. }`: the discriminant identifies the variant
+                adt = prog.adts.get(mod + "::SequenceOrdering")
+                if adt:
+                    all_d = {int(v_["discr"]): v_["name"] for v_ in adt["variants"]}
+                    if rel == "==":
+                        left = {v} & set(all_d)
+                    else:
+                        left = set(all_d) - set(v)
+                    if left and all(all_d[d] == "Current" for d in left):
+                        ok = True
         rep.ob(rule, "%s | ack advances only on Current" % ver, ok, "*self = next_self is dominated by `result == Current`", u.loc())
     n = prog.one(mod + "::Sequence::next")
     nir = IR(n)
